@@ -132,6 +132,19 @@ impl<TLiteral: Debug + Display + Clone + Eq + Ord> TruthTable<TLiteral> {
     }
 }
 
+#[cfg(feature = "verif")]
+impl<TLiteral: Debug + Clone + Eq + Ord> TruthTable<TLiteral> {
+    /// Verification hook: the raw input and output vectors, exactly as stored.
+    pub fn verif_raw(&self) -> (&[TLiteral], &[bool]) {
+        (&self.inputs, &self.outputs)
+    }
+
+    /// Verification hook: builds a table from raw vectors without any checks.
+    pub fn verif_from_raw(inputs: Vec<TLiteral>, outputs: Vec<bool>) -> Self {
+        Self::new(inputs, outputs)
+    }
+}
+
 #[cfg(test)]
 mod tests {
     use crate::expressions::Expression;
